@@ -72,7 +72,13 @@ class Gen:
         r = self.rng
         if r.random() < 0.4:
             return r.choice(RENAME_WORDS)
-        return self.pg.key()
+        while True:
+            k = self.pg.key()
+            # a rename made of underscores / dashes only has an empty re-cased form: Python then prints a Types member without a name
+            # (ill-formed output: the recorded C10 finding C10-python-digit-name, "or be empty"); the wire value is still carried, so
+            # C02 has nothing to judge and the text cannot be read back
+            if k.strip('_-'):
+                return k
 
     def program(self):
         r = self.rng
